@@ -1,13 +1,19 @@
 package checks
 
 import (
+	"encoding/json"
 	"fmt"
 	"math/big"
 	"strings"
 	"time"
 
 	abci "github.com/cometbft/cometbft/abci/types"
+	"github.com/cosmos/cosmos-sdk/codec"
 	sdk "github.com/cosmos/cosmos-sdk/types"
+	authtypes "github.com/cosmos/cosmos-sdk/x/auth/types"
+	distrtypes "github.com/cosmos/cosmos-sdk/x/distribution/types"
+	govtypes "github.com/cosmos/cosmos-sdk/x/gov/types"
+	govv1 "github.com/cosmos/cosmos-sdk/x/gov/types/v1"
 	vestingtypes "github.com/cosmos/cosmos-sdk/x/auth/vesting/types"
 	banktypes "github.com/cosmos/cosmos-sdk/x/bank/types"
 	aoltypes "github.com/medibloc/panacea-core/v2/x/aol/types"
@@ -52,14 +58,35 @@ func c07System() *explore.System {
 		txOp("Send(A->B,11umed)", s(A), banktypes.NewMsgSend(A.Addr, B.Addr, coins("11umed"))),
 		txOp("CreateTopic(A,a)", s(A), aoltypes.NewMsgCreateTopic("a", "", A.Bech)),
 	)
+	// another module's end blocker as the route: a governance proposal that pays the burn address out of the community
+	// pool, executed by gov's EndBlocker when its (one block long) voting period ends
+	govAddr := authtypes.NewModuleAddress(govtypes.ModuleName)
+	spend := &distrtypes.MsgCommunityPoolSpend{Authority: govAddr.String(), Recipient: burn.String(), Amount: coins("700umed")}
+	prop, err := govv1.NewMsgSubmitProposal([]sdk.Msg{spend}, coins("10umed"), A.Bech, "", "pay the burn address", "community pool spend to the burn address")
+	if err != nil {
+		panic(err)
+	}
+	ops = append(ops,
+		txOp("FundCommunityPool(A,1000umed)", s(A), distrtypes.NewMsgFundCommunityPool(coins("1000umed"), A.Addr)),
+		txOp("SubmitProposal(CommunityPoolSpend->burn,700umed)", s(A), prop),
+		txOp("Vote(A,proposal1,yes)", s(A), govv1.NewMsgVote(A.Addr, 1, govv1.OptionYes, "")),
+	)
 	ops = append(ops, ctlOps("NB")...)
 	sys := &explore.System{
 		ID:     "C07",
-		Stores: []string{"bank", "acc"},
+		Stores: []string{"bank", "acc", "gov", "distribution", "aol"},
 		Ops:    ops,
 		Clone:  func(m any) any { return m },
 		Fresh: func() (*world.World, any) {
-			return world.New(world.Options{Accounts: []*world.Account{A, B}, ExtraCoins: sdk.NewCoins(sdk.NewCoin("ubig", big120.MulRaw(4)))}), nil
+			return world.New(world.Options{Accounts: []*world.Account{A, B}, ExtraCoins: sdk.NewCoins(sdk.NewCoin("ubig", big120.MulRaw(4))),
+				Mutate: func(gs map[string]json.RawMessage, cdc codec.Codec) {
+					var g govv1.GenesisState
+					cdc.MustUnmarshalJSON(gs["gov"], &g)
+					vp := 5 * time.Second
+					g.Params.VotingPeriod = &vp
+					g.Params.MinDeposit = coins("10umed")
+					gs["gov"] = cdc.MustMarshalJSON(&g)
+				}}), nil
 		},
 	}
 	sys.OnStep = func(st *explore.Step) {}
@@ -70,7 +97,9 @@ func c07System() *explore.System {
 		}
 		return cls + "/rejected"
 	}
+	govAddrS, distrAddrS := govAddr.String(), authtypes.NewModuleAddress(distrtypes.ModuleName).String()
 	sys.OnState = func(st *explore.State) {
+		govAddr, distrAddr := govAddrS, distrAddrS
 		w := st.W
 		discard := w.Fork()
 		defer discard()
@@ -95,25 +124,50 @@ func c07System() *explore.System {
 		if !spendAfter.IsZero() {
 			st.Fail("not-emptied", "not-emptied:burn-account="+acct, "after EndBlock the burn address (%s) still has spendable %s (spendable before: %s, total %s)", acct, spendAfter, spendBefore, balAfter[burn.String()])
 		}
-		// (2) supply shrinks by exactly what was spendable there
-		wantSup := supBefore.Sub(spendBefore...)
-		if !wantSup.IsEqual(supAfter) {
-			st.Fail("supply", "supply:burn-account="+acct, "supply before %s, spendable at burn address %s, supply after %s (expected %s)", supBefore, spendBefore, supAfter, wantSup)
-		}
-		// (3) no other account's balance is changed by the burn
+		// Other modules' end blockers (a passed governance proposal paying out of the community pool) may move coins during
+		// this very EndBlock. inflow = what left the accounts other than the burn address; it can only have gone to the burn
+		// address (or been burned by it). Only the gov and distribution module accounts and the proposal's depositor may
+		// change at all; everybody else must be untouched.
+		out, in := sdk.Coins{}, sdk.Coins{}
+		mayChange := map[string]bool{govAddr: true, distrAddr: true, A.Bech: true}
+		all := map[string]bool{}
 		for a := range balBefore {
-			if a == burn.String() {
-				continue
-			}
-			if !balBefore[a].IsEqual(balAfter[a]) {
-				st.Fail("other-balance", "other-balance", "EndBlock changed the balance of %s: %s -> %s", a, balBefore[a], balAfter[a])
-			}
+			all[a] = true
 		}
 		for a := range balAfter {
-			if _, ok := balBefore[a]; !ok && a != burn.String() {
-				st.Fail("other-balance", "other-balance:new", "EndBlock created a balance at %s: %s", a, balAfter[a])
+			all[a] = true
+		}
+		for _, a := range sortedKeys(all) {
+			if a == burn.String() || balBefore[a].IsEqual(balAfter[a]) {
+				continue
+			}
+			if !mayChange[a] {
+				st.Fail("other-balance", "other-balance", "EndBlock changed the balance of %s: %s -> %s", a, balBefore[a], balAfter[a])
+				continue
+			}
+			// per denomination: what left this account and what it gained
+			for _, c := range balBefore[a] {
+				if d := c.Amount.Sub(balAfter[a].AmountOf(c.Denom)); d.IsPositive() {
+					out = out.Add(sdk.NewCoin(c.Denom, d))
+				}
+			}
+			for _, c := range balAfter[a] {
+				if d := c.Amount.Sub(balBefore[a].AmountOf(c.Denom)); d.IsPositive() {
+					in = in.Add(sdk.NewCoin(c.Denom, d))
+				}
 			}
 		}
+		inflow, neg := out.SafeSub(in...)
+		if neg {
+			st.Fail("other-balance", "other-balance:gain", "accounts other than the burn address gained more than they lost during EndBlock (lost %s, gained %s)", out, in)
+			inflow = sdk.Coins{}
+		}
+		// (2) supply shrinks by exactly what was spendable at the burn address (plus what other end blockers paid into it)
+		wantSup := supBefore.Sub(spendBefore...).Sub(inflow...)
+		if !wantSup.IsEqual(supAfter) {
+			st.Fail("supply", "supply:burn-account="+acct, "supply before %s, spendable at burn address %s, paid in during EndBlock %s, supply after %s (expected %s)", supBefore, spendBefore, inflow, supAfter, wantSup)
+		}
+		// (3) the burn address keeps only what it could not spend
 		wantBurnBal := balBefore[burn.String()].Sub(spendBefore...)
 		if !wantBurnBal.IsEqual(balAfter[burn.String()]) {
 			st.Fail("burn-balance", "burn-balance:burn-account="+acct, "burn address balance %s -> %s, expected %s", balBefore[burn.String()], balAfter[burn.String()], wantBurnBal)
@@ -136,9 +190,9 @@ func C07(t Tier) int {
 		return 2
 	}
 	dl := deadline(t, 150*time.Second, 15*time.Minute)
-	bounds := []explore.Bounds{{Depth: 5, V: 1, Deadline: dl}}
+	bounds := []explore.Bounds{{Depth: 4, V: 1, Deadline: dl}}
 	if t.Thorough {
-		bounds = []explore.Bounds{{Depth: 5, V: 1, Deadline: dl}, {Depth: 5, V: 2, Deadline: dl}, {Depth: 6, V: 2, Deadline: dl}, {Depth: 6, V: 3, Deadline: dl}}
+		bounds = []explore.Bounds{{Depth: 4, V: 1, Deadline: dl}, {Depth: 5, V: 1, Deadline: dl}, {Depth: 5, V: 2, Deadline: dl}, {Depth: 6, V: 2, Deadline: dl}}
 	}
 	RunGraph(run, sys, bounds, 6)
 	run.Assumptions = []string{
@@ -148,3 +202,6 @@ func C07(t Tier) int {
 	}
 	return run.Finish()
 }
+
+// C07SystemForDebug exposes the C07 system (development aid).
+func C07SystemForDebug() *explore.System { return c07System() }
